@@ -231,10 +231,8 @@ DIRECTED = [
 ]
 
 
-# Inputs aimed at finding F63 (empty node names reached through list patterns with an empty item).  Reported to the
-# orchestrator with replay and patch; switched on here once the repair is in /repo (the model already follows either form
-# of the sources through the translator flag c_c05_uvempty_as_found).
-F63_INPUTS = False
+# Inputs aimed at finding F63 (empty node names reached through list patterns with an empty item); the repair is in /repo.
+F63_INPUTS = True
 F63_DIRECTED = [
     # F63: a node with an empty name and list patterns with an empty item (hash-lookup path vs iteration path)
     "a:h;a:h;s:1:0:a//b=1&a/x/b=2;t:0:g:1:-1:a/x,,y/b:;t:0:g:1:-1:a/x,,y/b&*/*/*:;t:0:g:1:-1:a/,x/b:;t:0:g:1:-1:a/x,/b:;m:0:1234:a/y,,/b::-;t:1:s:1:-1:a/,:",
